@@ -85,6 +85,7 @@ type task struct {
 	fn      func()
 	goid    uint64
 	gptr    uintptr
+	root    int // caller task on whose behalf a library goroutine runs
 }
 
 // S is one scheduler instance (one run).
@@ -134,8 +135,9 @@ type S struct {
 	TimerWakes int
 	// SelfWakes counts token holders that came back by themselves right after
 	// the monitor had flagged them as blocked.
-	SelfWakes int
-	monBusy   atomic.Bool
+	SelfWakes  int
+	lastSwitch uint64
+	monBusy    atomic.Bool
 
 	// Seen, when non-nil, records which yield sites were reached (reach
 	// measure for the evidence).
@@ -288,6 +290,13 @@ func (s *S) decide(site uint32) int {
 	}
 	switch s.spec.Policy {
 	case "serial":
+		// a task that spins (runtime.Gosched, polling an atomic flag) while it
+		// waits for a goroutine the library started would keep the token for
+		// ever: after a long uninterrupted stretch the others get a turn
+		if s.Step-s.lastSwitch > serialFairness && len(s.tasks) > 1 {
+			s.lastSwitch = s.Step
+			return s.pickOther(s.cur)
+		}
 		return s.cur
 	case "rr":
 		if s.spec.K > 0 && s.Step%s.spec.K == 0 {
@@ -381,6 +390,16 @@ func (s *S) wokenPark() bool {
 		return true
 	}
 	t := s.byG[g]
+	if t != nil && t.fn == nil && t.goid != goid() {
+		// the runtime has given the g of a goroutine that has ended (an
+		// inherited or adopted one) to a new goroutine
+		t.done = true
+		if t.blocked {
+			t.blocked = false
+			s.nBlocked.Add(-1)
+		}
+		t = nil
+	}
 	if t == nil {
 		// a goroutine of the library that no scheduler of this process has seen
 		// start (it was started outside every scheduled phase): adopt it
@@ -485,8 +504,13 @@ func (s *S) settle() {
 	}
 }
 
+// serialFairness is the number of consecutive steps after which the serial
+// policy lets another runnable task run (see decide).
+const serialFairness = 200000
+
 func (s *S) switchTo(next int, site uint32, exit bool) {
 	prev := s.cur
+	s.lastSwitch = s.Step
 	s.Switches = append(s.Switches, Switch{Step: s.Step, To: next, Exit: exit, From: prev, Site: site})
 	if s.OnSwitch != nil {
 		s.OnSwitch(prev, next, site)
@@ -728,6 +752,26 @@ func (s *S) start(t *task) {
 	<-ready
 }
 
+// rootOf returns the caller task on whose behalf task i runs: i itself for a
+// caller, the caller that (transitively) started it for a goroutine of the
+// library, -1 when that is not known (inherited or adopted goroutines).
+func (s *S) rootOf(i int) int {
+	if i < s.nCallers {
+		return i
+	}
+	if i < len(s.tasks) && s.tasks[i].fn != nil {
+		return s.tasks[i].root
+	}
+	return -1
+}
+
+// Root is rootOf for the harness (entropy reads are booked to the caller).
+func (s *S) Root(i int) int {
+	s.lock()
+	defer s.unlock()
+	return s.rootOf(i)
+}
+
 // Spawn adds a task while the system runs (library-created goroutine).
 func (s *S) Spawn(f func()) {
 	if !s.active {
@@ -744,6 +788,7 @@ func (s *S) Spawn(f func()) {
 		t.prio = 1 + s.rng.N(1<<20)
 	}
 	s.lock()
+	t.root = s.rootOf(s.cur)
 	s.tasks = append(s.tasks, t)
 	s.PerTask = append(s.PerTask, 0)
 	s.SpawnedN++
@@ -1013,7 +1058,12 @@ func isBlockedStatus(st string) bool {
 	case st == "":
 		return false
 	case strings.HasPrefix(st, "chan "), strings.HasPrefix(st, "select"),
-		strings.HasPrefix(st, "sync."), strings.HasPrefix(st, "semacquire"):
+		strings.HasPrefix(st, "sync."), strings.HasPrefix(st, "semacquire"),
+		// a caller waiting for a coroutine (iter.Pull) or the coroutine waiting
+		// for its caller; the finalizer goroutine between two finalizers; a task
+		// sleeping on the real clock or waiting for I/O
+		strings.HasPrefix(st, "coroutine"), strings.HasPrefix(st, "finalizer wait"),
+		strings.HasPrefix(st, "sleep"), strings.HasPrefix(st, "IO wait"):
 		return true
 	}
 	return false
